@@ -4,4 +4,24 @@ META = {
              text="Every factory object for d=2..6 and every admissible index is enumerated (exhaustive over the finite domain) and compared entry-wise with the documented 0/1 matrix through a reference model that shares no code with the library; random linear combinations add the algebraic consequences.",
              note=NOTE),
 }
+META.update({
+ "C01": dict(technique="rapidcheck byte-decoded component vectors / Hermitian matrices; round-trip + differential oracle against an independent closed-form Gell-Mann model; bit-exact IEEE differential for element-wise operations",
+             text="Generated search over all five dimensions with structured value classes (zeros, single generators, magnitudes to 2^+-1000); conversions are compared entry-wise with a model that shares no code with the generated kernels, element-wise operations are held to bit equality, every component slot of every dimension is hit (reported as slot classes). A wrong coefficient/index/sign in any SUToMatrix/MatrixToSU kernel is an O(1) discrepancy against a tolerance of a few eps.",
+             note=NOTE),
+ "C02": dict(technique="bounded-exhaustive enumeration of all 2274 ordered generator pairs + rapidcheck pairs; differential oracle against long-double matrix products; metamorphic antisymmetry/symmetry/bilinearity",
+             text="Structure constants are fixed by their action on generator pairs, which are enumerated exhaustively for d=2..6; random dense/sparse/scaled pairs in all storage kinds add rounding-scale and alignment coverage. Two-sided comparison of every output component.",
+             note=NOTE),
+ "C03": dict(technique="rapidcheck (H,t,A) cases; differential oracle against exact phase conjugation in long double; metamorphic group law, inverse, scalar-product invariance; two-step buffer form in exact-size heap buffers under ASan",
+             text="Generated spectra (distinct, degenerate, zero, integer), times from 0 to 1e6 of both signs and structured A; every output component is compared with the model U A U^dagger; the prepared-buffer form is checked against both the model and the direct form.",
+             note=NOTE),
+ "C06": dict(technique="enumeration of all 35 rotation kernels x angle/phase classes + rapidcheck; differential oracle against long-double similarity transforms; cross-entry-point consistency; exhaustive index-validity table for the parameter store",
+             text="Every generated rotation kernel is exercised with special and random angles and compared with R^dagger A R in the model; the mixing matrix is checked for unitarity and against the ordered product; all matrix entry points are compared with U^dagger A U / U A U^dagger and with each other.",
+             note=NOTE),
+ "C07": dict(technique="rapidcheck matrix classes with norm sweep over all Pade bands and call histories; oracle: closed-form / long-double Taylor reference with Frechet-derivative conditioning; metamorphic inverse/transpose/permutation relations",
+             text="Accuracy is demanded relative to the conditioning of the problem (Kronecker form of the Frechet derivative), for eight matrix classes, n=2..6, norms 1e-8..1e3, with earlier exponentials of other sizes on the same thread. Band membership (order 3/5/7/9/13, squaring count) is measured and reported per n.",
+             note=NOTE + " The library's norm estimator uses a thread-local RNG, so band selection at a threshold depends on process history."),
+ "C12": dict(technique="rapidcheck structured Hermitian inputs; validity-predicate oracle (finite, residual, unitarity, ordering, constructed spectrum)",
+             text="Many outputs are correct, so a validity predicate is checked rather than one answer: M V = V diag(L) and V unitary to 1e-10, ascending order, finiteness, for dense/sparse/diagonal/projector/identity/degenerate/near-degenerate/zero inputs in every dimension.",
+             note=NOTE + " Inputs with entries below 2^-300 are flushed to zero (squares would underflow inside GSL)."),
+})
 PENDING = {}
